@@ -1,5 +1,7 @@
 #![allow(dead_code)]
 mod crash;
+mod extra;
+mod fault;
 mod hist;
 mod images;
 mod lin;
@@ -18,7 +20,9 @@ fn main() {
         std::process::exit(2);
     }
     // panics inside explored executions are observations; keep the output quiet
-    std::panic::set_hook(Box::new(|_| {}));
+    if args[1] != "replay" && std::env::var("QMC_LOUD").is_err() {
+        std::panic::set_hook(Box::new(|_| {}));
+    }
     let code = match args[1].as_str() {
         "replay" => props::replay(&args[2]),
         "selftest" => props::selftest(),
